@@ -338,7 +338,8 @@ def folder_history_cases(run):
     from nanite import read as nread
     files = [f for f in fd_files() if "bad" not in f.name]
     singles = [f for f in files if f.name.endswith(".jpk-force")][:3]
-    maps = [f for f in files if f.name.endswith(".jpk-force-map")][:1]
+    maps = [f for f in files if f.name.endswith(".jpk-force-map")
+            and independent_count(f) >= 2][:2]
     if len(singles) < 2 or not maps:
         run.count("folder-history-data-missing")
         return
@@ -357,6 +358,8 @@ def folder_history_cases(run):
             d / "day1" / "b.jpk-force").unlink()),
         ("a curve added at the top", lambda: shutil.copy(
             singles[1], d / "z.jpk-force")),
+        ("a second map added at the top", lambda: shutil.copy(
+            maps[-1], d / "0m.jpk-force-map")),
     ]
     for sname, act in steps:
         act()
@@ -382,6 +385,28 @@ def folder_history_cases(run):
             elif seq and (seq[-1] != 1.0 or any(
                     b < a for a, b in zip(seq, seq[1:]))):
                 why = f"progress values {seq[:4]}...{seq[-2:]}"
+            else:
+                # file order: the curves of one file form one block, in the
+                # order that file alone yields them
+                got = [(str(c.path), int(c.enum)) for c in grp]
+                order = []
+                for pth, _ in got:
+                    if pth not in order:
+                        order.append(pth)
+                want_seq = []
+                with warnings.catch_warnings():
+                    warnings.simplefilter("ignore")
+                    for pth in order:
+                        want_seq += [(pth, int(c.enum))
+                                     for c in nanite.load_group(pth)]
+                if got != want_seq:
+                    k = next(i for i, (a, b) in enumerate(
+                        zip(got, want_seq)) if a != b)
+                    why = (f"the curves are not in file order: position {k} "
+                           f"holds curve {got[k][1]} of "
+                           f"{pathlib.Path(got[k][0]).name}, expected curve "
+                           f"{want_seq[k][1]} of "
+                           f"{pathlib.Path(want_seq[k][0]).name}")
         except BaseException as e:
             why = f"raised {type(e).__name__}: {e}"
         if why:
